@@ -420,7 +420,13 @@ def callWith (s : State) (fv : Val) (c : Callee) (args : Nat) : Outcome :=
         match callExtern name (lastN stk args) with
         | .ok v => .running { s with stack := popN stk (args + 1) ++ [v] }
         | .error e => .err e
-      else .err (.wrong "extern-excess")
+      else
+        -- excess arguments (:2722, then `enter_extern`): the function runs on its own
+        -- arguments first; only its failing is modelled (`error msg x y` in a default
+        -- alternative of function type) — `execute_function` does not look at `frame.excess`
+        match callExtern name ((lastN stk args).take required) with
+        | .ok _ => .err (.wrong "extern-excess")
+        | .error e => .err e
 
 /-- thread.rs:2752 `do_call` -/
 def doCall (s : State) (args : Nat) : Outcome :=
